@@ -979,6 +979,59 @@ def extract_mutations():
 # --------------------------------------------------------------------------------------------
 
 
+_PRIVATE_SRC = """
+module q0
+  implicit none
+  type ta
+  contains
+    procedure, nopass, private :: pa => sa
+    procedure, nopass :: pb => sb
+  end type ta
+  type, extends(ta) :: tb
+  contains
+    generic :: g => pa, pb
+  end type tb
+  type, extends(tb) :: tc
+  contains
+    generic :: h => pa
+  end type tc
+contains
+  subroutine sa()
+  end subroutine sa
+  subroutine sb()
+  end subroutine sb
+end module q0
+"""
+
+
+def probe_private():
+    """-> [(slot, entity | None)]: the specifics of tb's `generic :: g => pa, pb` (slots 0, 1) and of tc's
+    `generic :: h => pa` (slot 2), where `pa` (10) is a PRIVATE and `pb` (12) a public binding of ta"""
+    project, exc = _correlated({"q.f90": _PRIVATE_SRC})
+    if exc is not None:
+        raise LookupError(f"probe: correlate() failed on the private-binding witness: {type(exc).__name__}: {exc}")
+    m = _unit(project, "q0")
+    ta, tb, tc = (_by(m.types, n, "type") for n in ("ta", "tb", "tc"))
+    ents = {id(_by(ta.boundprocs, "pa", "binding")): 10, id(_by(ta.boundprocs, "pb", "binding")): 12}
+    g = _by(tb.boundprocs, "g", "generic binding")
+    h = _by(tc.boundprocs, "h", "generic binding")
+    cells = [g.bindings[0], g.bindings[1], h.bindings[0]]
+    out = []
+    for i, c in enumerate(cells):
+        if isinstance(c, str):
+            out.append((i, None))
+        elif id(c) in ents:
+            out.append((i, ents[id(c)]))
+        else:
+            raise LookupError(f"probe_private: specific {i} holds {type(c).__name__} {getattr(c, 'name', '?')}")
+    return out
+
+
+def private_variant():
+    """'1' = an extension does not inherit the PRIVATE bindings of its parent type, '0' = it does"""
+    return "1" if dict(probe_private())[0] is None else "0"
+
+
 # --------------------------------------------------------------------------------------------
 # accessibility: which identifiers of a module a USE statement can see
 # --------------------------------------------------------------------------------------------
@@ -1099,6 +1152,7 @@ def generate():
     sub = probe_sub()
     mut = extract_mutations()
     acc = probe_access()
+    prv = probe_private()
     use_lines = []
     for only, items, res in use:
         use_lines.append(
@@ -1163,12 +1217,16 @@ def generate():
         "/-- ... the sites, in source order -/",
         f"def nameTableSites : List String := {_lstr(list(dict.fromkeys(s for s, _, _ in mut)))}",
         "",
+        "/-- private-binding witness (ta: private pa = 10, public pb = 12; tb extends ta: generic g => pa, pb = slots 0, 1;",
+        "    tc extends tb: generic h => pa = slot 2): what the specifics hold -/",
+        "def privateProbe : List (Nat × Option Nat) := [" + ", ".join(f"({i}, {_opt(e)})" for i, e in prv) + "]",
+        "",
     ] + _access_lean(acc) + [
         "end Ford.C07Gen",
         "",
     ]
     common.write_if_changed(common.LEAN / "FordModel" / "Generated" / "C07.lean", "\n".join(lines))
-    return {"recursion": rec, "host": host, "lookups": lk, "use": use, "blocks": blk, "generic": gen, "sub": sub, "access": acc}
+    return {"recursion": rec, "host": host, "lookups": lk, "use": use, "blocks": blk, "generic": gen, "sub": sub, "access": acc, "private": prv}
 
 
 if __name__ == "__main__":
